@@ -345,6 +345,16 @@ pub fn run_mut_program(p: &Value, out: &mut String) {
                             let p = c.as_mut_ptr();
                             unsafe { std::ptr::copy_nonoverlapping(d.as_ptr(), p, k) };
                         }
+                        "oob" => {
+                            // indices one past the chunk must panic and write nothing
+                            let l = c.len();
+                            let p1 = catch_unwind(AssertUnwindSafe(|| c.write_byte(l, 0xEE))).is_ok();
+                            let p2 = catch_unwind(AssertUnwindSafe(|| c[l..l + 1].copy_from_slice(&[0xEE]))).is_ok();
+                            let p3 = catch_unwind(AssertUnwindSafe(|| c[..=l].len())).is_ok();
+                            let p4 = catch_unwind(AssertUnwindSafe(|| c[..k].copy_from_slice(&[0xEE; 70][..k + 1]))).is_ok();
+                            flag = !(p1 || p2 || p3 || p4);
+                            c[..k].copy_from_slice(&d[..k]);
+                        }
                         _ => c[..k].copy_from_slice(&d[..k]),
                     }
                     unsafe { b.advance_mut(k) };
@@ -354,6 +364,18 @@ pub fn run_mut_program(p: &Value, out: &mut String) {
                 "set_limit" => {
                     let path: Vec<u64> = o["path"].as_array().map(|a| a.iter().filter_map(|x| x.as_u64()).collect()).unwrap_or_default();
                     flag = b.set_limit(&path, n);
+                }
+                "write" if m == "all" => {
+                    // write_all: transfers what fits, Ok iff everything fitted; rn = bytes transferred
+                    let before = BufMut::remaining_mut(&**root.as_ref().unwrap());
+                    let mut w = root.take().unwrap().writer();
+                    let got = w.write_all(&d);
+                    flag = got.is_ok();
+                    let _ = w.flush();
+                    root = Some(w.into_inner());
+                    let after = BufMut::remaining_mut(&**root.as_ref().unwrap());
+                    // (remaining_mut of growing targets saturates: count from the result)
+                    rn = if flag { d.len() as i64 } else { before.saturating_sub(after) as i64 };
                 }
                 "write" => {
                     let mut w = root.take().unwrap().writer();
